@@ -33,6 +33,7 @@ func checkC15(c *Ctx) {
 	c.Rule("C15/R7", "where a measurement lands does not depend on the lines before it: in Builder.Add every value is appended to the cell looked up (or created) under that measurement's own table key and the result's (row, column) key — no shortcut through cells remembered from an earlier call (same rule as C14/R2)")
 	c.Rule("C15/R8", "sorted key order cannot silently degrade to map order: flattened-field cache invariant (same rule as C09/R10)")
 	c.Rule("C15/R10", "key identity (shared with C08/R1 and C14/R6): interning hashes, compares and stores one trimmed row, so equal value tuples give one key — two keys with identical values would make tables and rows appear twice, in hash-map order")
+	c.Rule("C15/R12", "a goroutine started in a loop sees its own iteration's values: no closure started as a goroutine inside a loop (directly or through the spawn helper) captures a variable that is declared outside that loop and assigned inside it")
 	c.Rule("C15/R11", "runs do not talk to each other through package-level variables: nothing reachable from the command writes a package-level variable of the module after package initialisation (direct stores, and stores through a pointer taken to one), apart from the reviewed list")
 	c.Rule("C15/R9", "process-wide caches are keyed by every input of the memoised call, verbatim (same rule as C13/R4, over every function reachable from the command): otherwise what an earlier in-process run asked for leaks into a later run's output")
 	p := mustLoad(c, loadOpts{deep: true}, pats...)
@@ -60,6 +61,7 @@ func checkC15(c *Ctx) {
 	c08InternAs(c, p, "C15/R10")
 	// R11: a run leaves no mark on package-level state that a later run in the same process reads
 	c15Globals(c, p, eff, reach)
+	c15LoopCaptures(c, p, "C15/R12")
 	// R9: process-wide caches on the command's path cannot carry one run's arguments into the next
 	var memoFns []*ssa.Function
 	for _, fn := range p.Funcs(c15Pkgs...) {
@@ -1196,4 +1198,34 @@ func globalsRule(c *Ctx, p *Prog, R string, reach map[*ssa.Function]bool, floor 
 	}
 	c.OK(R, "globals:scan", "", fmt.Sprintf("%d module functions reachable, %d stores to package-level variables of the module", nF, n))
 	c.Floor(R, "module functions scanned for stores to package-level variables", nF, floor)
+}
+
+// c15LoopCaptures (C15/R12 = C14/R12): see loopCapturedWrites.
+func c15LoopCaptures(c *Ctx, p *Prog, R string) {
+	nGo := 0
+	for _, fn := range p.Funcs(btabRel, "cmd/benchstat") {
+		cws, k := loopCapturedWrites(fn, func(f *ssa.Function) bool { return c15Wrappers[f] != nil || len(findWrappers([]*ssa.Function{f})) > 0 })
+		nGo += k
+		seen := map[*ssa.Alloc]bool{}
+		for _, cw := range cws {
+			if seen[cw.Var] {
+				continue
+			}
+			seen[cw.Var] = true
+			c.Bad(R, fmt.Sprintf("%s:goroutine-shares-loop-variable %s", fnName(fn), cw.Var.Comment), p.pos(cw.Site.Pos()), "a goroutine started in this loop captures the variable "+cw.Var.Comment+", which lives outside the loop and is assigned again at "+p.pos(cw.Store.Pos())+" in a later iteration: a cell still waiting for its turn is then summarised with the next table's setting (its unit's statistical assumption), depending on how the goroutines happen to be scheduled")
+		}
+	}
+	c.OK(R, "goroutines-in-loops:captures", "", fmt.Sprintf("%d goroutine starts inside loops, none captures a variable assigned by a later iteration", nGo))
+	c.Floor(R, "goroutine starts inside loops of the table builder", nGo, 2)
+	ctl := mustLoad(c, loadOpts{dir: c.HomeDir + "/checker"}, "./testdata/lookbehind")
+	nCtl := 0
+	for _, fn := range ctl.Funcs("perfcheck/testdata/lookbehind") {
+		cws, _ := loopCapturedWrites(fn, nil)
+		nCtl += len(cws)
+	}
+	if nCtl == 0 {
+		c.Undecided(R, "positive-control", "", "the loop-capture matcher no longer recognises its own positive example")
+	} else {
+		c.OK(R, "positive-control", "checker/testdata/lookbehind/lb.go", "matcher fires on the stored goroutine sharing a variable hoisted out of its loop")
+	}
 }
